@@ -437,3 +437,172 @@ Section merge.
       + rewrite decide_False by (rewrite elem_of_app; tauto). done.
   Qed.
 End merge.
+
+(** * Part 4: histories *)
+Definition hops (H : list (oprec (mop oop))) : list (mop oop) := op_val <$> H.
+
+(** structural well-formedness of a history: at key level the n-th update of an actor carries
+    the dot (actor, n); the ops have the shape [nk_op]; every positive component of a nested
+    remove context under [k] is the dot of an update of [k] *)
+Definition nk_wfH (H : list (oprec (mop oop))) : Prop := owfH (habs H) ∧ nk_univ (hops H).
+Definition nk_valid (H : list (oprec (mop oop))) (K : gset nat) : Prop := ovalid (habs H) K.
+
+Lemma elem_of_hops H o : o ∈ hops H ↔ ∃ i r, H !! i = Some r ∧ op_val r = o.
+Proof.
+  unfold hops. rewrite elem_of_list_fmap. split.
+  - intros (r & -> & [i Hi]%elem_of_list_lookup). by exists i, r.
+  - intros (i & r & Hi & <-). exists r. split; [done|]. by eapply elem_of_list_lookup_2.
+Qed.
+Lemma hops_app H H' : hops (H ++ H') = hops H ++ hops H'.
+Proof. unfold hops. by rewrite fmap_app. Qed.
+
+Lemma habs_up_lookup (H : list (oprec (mop oop))) i r d k o : H !! i = Some r → op_val r = MUp d k o →
+  habs H !! i = Some (OpRec (op_author r) (OAdd d [k]) (op_deps r)).
+Proof. intros Hi Ho. unfold habs. rewrite (hmap_lookup_Some oabs H i r Hi). by rewrite Ho. Qed.
+
+Lemma nk_hops_pos H d k o : owfH (habs H) → MUp d k o ∈ hops H → 0 < dcounter d.
+Proof.
+  intros HH (i & r & Hi & Ho)%elem_of_hops.
+  destruct (owfH_add _ _ _ _ _ HH (habs_up_lookup H i r d k o Hi Ho) eq_refl) as (_ & Hc & _). lia.
+Qed.
+
+Lemma nk_map_clock_abs (H : list (oprec (mop oop))) K :
+  mspec_clock (known_ops H K) = ospec_clock (known_ops (habs H) K).
+Proof. by rewrite known_ops_habs, mspec_clock_abs. Qed.
+
+Lemma nk_seen H K i r d k o : owfH (habs H) → nk_valid H K → H !! i = Some r → op_val r = MUp d k o →
+  dcounter d <= vget (mspec_clock (known_ops H K)) (dactor d) → i ∈ K.
+Proof.
+  intros HH HK Hi Ho Hle. rewrite nk_map_clock_abs in Hle.
+  exact (seen (habs H) K i _ d [k] HH HK (habs_up_lookup H i r d k o Hi Ho) eq_refl Hle).
+Qed.
+
+Lemma nk_side_known H K : owfH (habs H) → nk_valid H K → nk_side (hops H) (known_ops H K).
+Proof.
+  intros HH HK. split.
+  - intros o (i & r & Hi & _ & Ho)%elem_of_known_ops. apply elem_of_hops. by exists i, r.
+  - intros d k o (i & r & Hi & Ho)%elem_of_hops Hle. apply elem_of_known_ops. exists i, r.
+    split_and!; [done| |done]. by eapply nk_seen.
+Qed.
+
+Lemma nk_valid_empty H : nk_valid H ∅.
+Proof. apply ovalid_empty. Qed.
+Lemma nk_valid_step H K i : nk_wfH H → nk_valid H K → adm_per_actor H K i → nk_valid H (K ∪ {[i]}).
+Proof. intros [HH _] HK Ha. apply ovalid_step; [done..|]. by apply adm_per_actor_hmap. Qed.
+Lemma nk_valid_union H K1 K2 : nk_valid H K1 → nk_valid H K2 → nk_valid H (K1 ∪ K2).
+Proof. apply ovalid_union. Qed.
+
+Lemma nk_spec_init H : mapor_spec_nk H ∅ = mnew.
+Proof. unfold mapor_spec_nk. rewrite known_ops_empty. by vm_compute. Qed.
+
+(** ** L1: applying an op to the specification state *)
+Theorem nk_L1 H K i r : nk_wfH H → nk_valid H K → H !! i = Some r →
+  mapply vo (mapor_spec_nk H K) (op_val r) = mapor_spec_nk H (K ∪ {[i]}).
+Proof.
+  intros [HH HU] HK Hi. unfold mapor_spec_nk.
+  assert (op_val r ∈ hops H) as Hin by (apply elem_of_hops; by exists i, r).
+  pose proof (proj1 HU _ Hin) as Hop.
+  destruct (op_val r) as [c ks|d k o] eqn:Ho; [done|].
+  destruct (N.le_gt_cases (dcounter d) (vget (mspec_clock (known_ops H K)) (dactor d))) as [Hle|Hgt].
+  - assert (i ∈ K) as HiK by (by eapply nk_seen).
+    assert (K ∪ {[i]} = K) as -> by set_solver.
+    by apply mapply_dedup.
+  - rewrite nk_apply_fresh; [|apply nk_ops_app|done].
+    + apply nk_spec_ext. intros x. rewrite (known_ops_add_elem H K i r x Hi), Ho.
+      by rewrite elem_of_app, elem_of_list_singleton.
+    + split; [by apply (nk_side_ops (hops H) HU), nk_side_known|].
+      by intros x ->%elem_of_list_singleton.
+Qed.
+
+(** ** L2: merging two specification states *)
+Theorem nk_L2 H K1 K2 : nk_wfH H → nk_valid H K1 → nk_valid H K2 →
+  mmerge vo (mapor_spec_nk H K1) (mapor_spec_nk H K2) = mapor_spec_nk H (K1 ∪ K2).
+Proof.
+  intros [HH HU] HK1 HK2. unfold mapor_spec_nk.
+  rewrite (nk_merge (hops H) HU) by (by apply nk_side_known).
+  apply nk_spec_ext. intros o. rewrite elem_of_app. symmetry. apply known_ops_union_elem.
+Qed.
+
+(** ** every reachable state is the specification of its knowledge (given [nk_wfH]) *)
+Theorem nk_reach_spec H s K : nk_wfH H → moreach_nk H s K → s = mapor_spec_nk H K ∧ nk_valid H K.
+Proof.
+  intros HH Hr.
+  refine (reach_spec eq mnew (mapply vo) (mmerge vo) adm_per_actor True mapor_spec_nk nk_wfH nk_valid
+            _ _ _ _ _ _ _ _ H s K HH Hr).
+  - by intros ??? ->.
+  - by intros ???? -> ->.
+  - intros H'. by rewrite nk_spec_init.
+  - intros H'. apply nk_valid_empty.
+  - intros H' K' i. apply nk_valid_step.
+  - intros H' K1 K2. apply nk_valid_union.
+  - intros H' K' i o HH' HK' _ Hi. by apply nk_L1.
+  - intros H' K1 K2 _. apply nk_L2.
+Qed.
+
+(** ** API-generated histories are well-formed *)
+Lemma mogen_nk_mgen s a cmd o : mogen_nk s a cmd = Some o → mgen vo s a (mo_cmd cmd) = Some o.
+Proof. unfold mogen_nk. by destruct (mo_nokrm cmd). Qed.
+
+Lemma mohist_nk_maphist H : mohist_ok_nk H → maphist_ok vo H.
+Proof.
+  induction 1 as [|H s K a cmd o Hok IH Hr Hown Hgen]; [constructor|].
+  by apply (hist_snoc _ _ _ _ _ _ H s K a (mo_cmd cmd) o); [done|done|done|apply mogen_nk_mgen].
+Qed.
+
+Lemma kclk_mono Ua Ua' k c : (∀ o, o ∈ Ua → o ∈ Ua') → kclk Ua k c → kclk Ua' k c.
+Proof. intros Hs Hc a Ha. destruct (Hc a Ha) as [o Ho]. exists o. by apply Hs. Qed.
+
+(** the nested value the closure of [Map::update] receives at a specification state *)
+Lemma nk_spec_nested os k :
+  default (v_default vo) (eval <$> mentries (S os) !! k) = ospec_of (mo_proj os k).
+Proof.
+  rewrite nk_entries_lookup. destruct (decide _) as [Hin|Hin]; [done|].
+  cbn. destruct (nk_absent_nil os k Hin) as [_ ->]. by rewrite ospec_of_nil.
+Qed.
+
+Lemma mogen_nk_op H K a cmd o : nk_wfH H → nk_valid H K →
+  mogen_nk (mapor_spec_nk H K) a cmd = Some o →
+  nk_op o ∧ ∀ d k c ms, o = MUp d k (ORm c ms) → kclk (hops H) k c.
+Proof.
+  intros [HH HU] HK Hgen. pose proof (nk_side_known H K HH HK) as HS.
+  unfold mapor_spec_nk in Hgen. set (os := known_ops H K) in *.
+  unfold mogen_nk, mogen in Hgen.
+  destruct cmd as [k ms|k ms [m'|]|ks src]; cbn [mo_nokrm mo_cmd mgen] in Hgen; [| | |done]; injection Hgen as <-;
+    unfold mupdate, oadd_all, orm_all; cbn beta; rewrite ?nk_spec_nested.
+  - split; [reflexivity|]. intros ???? [=].
+  - cbn [derive_rm_ctx rm_clock ocontains oentries ospec_of].
+    rewrite ospec_entries_default. split; [apply ospec_entry_wf|].
+    intros d k' c ms' [= _ <- <- _]. by apply kclk_nested_entry.
+  - cbn [derive_rm_ctx rm_clock oread_ctx oclock ospec_of].
+    split; [apply ospec_clock_wf|].
+    intros d k' c ms' [= _ <- <- _]. by apply kclk_nested_clock.
+Qed.
+
+Theorem mohist_nk_wf H : mohist_ok_nk H → nk_wfH H.
+Proof.
+  intros Hok. split; [by apply (maphist_ok_wf vo), mohist_nk_maphist|].
+  pose proof (maphist_ok_wf vo H (mohist_nk_maphist H Hok)) as HHall.
+  induction Hok as [|H s K a cmd o Hok IH Hr Hown Hgen].
+  { split_and!; [by intros ? ?%elem_of_nil|by intros ??? ?%elem_of_nil|by intros ???? ?%elem_of_nil]. }
+  assert (owfH (habs H)) as HH by (by apply (maphist_ok_wf vo), mohist_nk_maphist).
+  specialize (IH HH).
+  destruct (nk_reach_spec H s K (conj HH IH) Hr) as [-> HK].
+  destruct (mogen_nk_op H K a cmd o (conj HH IH) HK Hgen) as [Hop Hctx].
+  rewrite hops_app. cbn [hops fmap list_fmap op_val].
+  destruct IH as (Hs & Hpos & Hk).
+  assert (∀ x, x ∈ hops H → x ∈ hops H ++ [o]) as Hmono by (intros x ?; apply elem_of_app; by left).
+  split_and!.
+  - apply nk_ops_app. split; [done|]. by intros x ->%elem_of_list_singleton.
+  - intros d k o' Hin. apply (nk_hops_pos (H ++ [OpRec a o K]) d k o' HHall).
+    by rewrite hops_app.
+  - intros d k c ms [Hin|Heq%elem_of_list_singleton]%elem_of_app.
+    + eapply kclk_mono; [exact Hmono|]. by eapply Hk.
+    + eapply kclk_mono; [exact Hmono|]. by eapply Hctx.
+Qed.
+
+(** * The theorem *)
+Theorem mapor_refine_nk (H : list (oprec (mop oop))) : mohist_ok_nk H →
+  ∀ (s : cmap orswot) (K : gset nat), moreach_nk H s K → s = mapor_spec_nk H K.
+Proof. intros Hok s K Hr. by destruct (nk_reach_spec H s K (mohist_nk_wf H Hok) Hr). Qed.
+
+Print Assumptions mapor_refine_nk.
